@@ -10,7 +10,7 @@ from . import common
 
 
 def record(ctx, obs, full, nrand):
-    args = ["c03", "--rand", nrand, "--seed", ctx.seed, "--out", obs]
+    args = ["c03", "--rand", nrand, "--seed", ctx.seed, "--out", obs, "--wire", 300 if not full else 3000]
     if full:
         args.append("--full")
     ctx.run_vh(args, timeout=1800)
@@ -24,7 +24,10 @@ def run(ctx):
     with open(obs) as f:
         for i, line in enumerate(f):
             d = json.loads(line)
-            if d["t"] == "c03d":
+            if d["t"] == "c03w":
+                key = ("w", d["prov"], d["path"], tuple(d["frame"][:24]))
+                cls = "wire:" + d["prov"]
+            elif d["t"] == "c03d":
                 key = ("d", d["s"], d["f"], d["w"], d["sid"], tuple(d["sb"]), json.dumps(d["item"], sort_keys=True), d["ctor"])
                 cls = "data:" + d["ctor"] + (":ok" if d["ctor_ok"] else ":refused")
             else:
@@ -46,7 +49,7 @@ def run(ctx):
                    classes=classes, exhaustive=False, samples=samples,
                    checker_cmd="vh c03; tlc OracleHsms")
     ctx.assumptions += ["SEMI E37 header layout and control tables as transcribed in spec/fn/HsmsFrame.tla",
-                        "socket bytes for a sent message are checked by the C06/C07 end-to-end recordings, not here"]
+                        "socket bytes are compared for messages forwarded through one live passive connection over loopback TCP"]
 
 
 def selftest(ctx):
